@@ -54,6 +54,14 @@ CHECKS["C09"] = (True, MC, "symbolic execution of the real ResolveBinaryExpressi
     "Compiler().Compile (accept/reject, static type of the returned value) are the replay channel and a concrete gate.",
     "Trusts z3, the proxy model (repr of a symbolic size forks over its values), the table O3. Matrix comparison is undefined by the statement and not checked.", "DESIGN.md 5 (C09)")
 
+CHECKS["C20"] = (True, MC, "symbolic execution of the real line-table, range-formatting, merge and parser-action code over symbolic line lengths, offsets, spans and token positions (symx + z3)",
+    "Bounded symbolic check composed of four links: SourceMapping built through its constructor from 1-5 lines of symbolic (unbounded) length and queried at a "
+    "symbolic offset (via the C-level bisect); Location.__str__ on symbolic spans with placeholder-token formatting; Location.Merge of 1-4 symbolic spans and one "
+    "UpdateLocations step per AST node kind; every parser action that attaches a position called with a stub production whose lexpos are symbolic. z3 decides each "
+    "against textbook definitions (line = number of line starts <= offset - 1; hull; span of the identifier token). A concrete family of layouts (tabs, blank lines, "
+    "line breaks inside declarations) checks the parsed nodes' ranges and the redeclaration diagnostic end to end; labelled non-symbolic.",
+    "Trusts z3, the proxy model, the len shim, and PLY's lexpos (offset of a token's first character). The end column is read as an exclusive 1-based bound.", "DESIGN.md 5 (C20)")
+
 NOT_YET = "check not built yet in this round (see DESIGN.md status); nothing is claimed"
 NA = {
     "C18": "quantifies over hash seeds, processes and compilation histories: none of these is a value flowing through the code, so there is no assertion over symbolic variables for a solver to decide (DESIGN.md section 6)",
